@@ -205,9 +205,12 @@ Definition QssofD (l : list (list D)) : list (list Q) := map QsofD l.
 
 (** one correspondence case: [obs = None] means the call raised ValueError;
     [epsd]/[epsc]: relative tolerance for the data / coordinate columns
-    ([eps40] for double precision, [eps20] when the arrays are float32) *)
+    ([eps40] for double precision, [eps20] when the arrays are float32);
+    [params_ok]: filter() left the instance's constructor parameters
+    (get_params()) as they were - an object is reused for other data *)
 Definition c09_case (epsd epsc : Q) (r : redop) (labels : list Z) (coords data : list (list D))
     (weights : option (list (list D))) (centres : list D * list D) (center drop : bool)
+    (params_ok : bool)
     (obs : option (list (list D) * list (list D))) : verdict :=
   let coordsq := QssofD coords in
   let dataq := QssofD data in
@@ -215,14 +218,14 @@ Definition c09_case (epsd epsc : Q) (r : redop) (labels : list Z) (coords data :
   let centresq := (QsofD (fst centres), QsofD (snd centres)) in
   let model := block_reduce (red_of r) (wred_of r) labels coordsq dataq weightsq centresq center drop in
   match model, obs with
-  | None, None => Vok
+  | None, None => mk_verdict true params_ok
   | Some (mc, md), Some (oc, od) =>
       let ocq := QssofD oc in
       let odq := QssofD od in
       mk_verdict
         (cols_close epsd dataq md odq &&
          coords_close epsc center (if drop then firstn 2 coordsq else coordsq) mc ocq)
-        (c09_holds epsd epsc r labels coordsq dataq weightsq centresq center drop ocq odq)
+        (params_ok && c09_holds epsd epsc r labels coordsq dataq weightsq centresq center drop ocq odq)
   | None, Some _ => Vdis     (* the code accepted an input the model rejects *)
   | Some _, None => Vboth    (* a well-formed input must be reduced, not rejected *)
   end.
